@@ -144,6 +144,11 @@ func (x *l1) startPop(i int) {
 // handleEv prints one sender event and runs the byte/order oracle on it.
 func (x *l1) handleEv(i int, ev evt) {
 	s := x.s[i]
+	// the event ends a swap() that started at parkedSince; if that was long ago and no `timer` op covered it, the real
+	// 1 s timer may have interfered with the scripted schedule: the attempt is discarded and the case re-run
+	if !s.inWrite && !s.timed && time.Since(s.parkedSince) > taintAfter {
+		x.tainted = true
+	}
 	if !ev.write {
 		s.inPop, s.inWrite = false, false
 		x.o.Obs("ret %d %s", i, map[bool]string{false: "nil", true: "err"}[ev.err])
@@ -729,10 +734,13 @@ func (s *sink) serve(id int, c net.Conn) {
 	defer c.Close()
 	s.waitUnstalled()
 	key := make([]byte, len(s.key))
-	if _, err := io.ReadFull(c, key); err != nil || string(key) != s.key {
-		s.mu.Lock()
-		s.badKey++
-		s.mu.Unlock()
+	// a connection may die (or be reset by the scenario) before the handshake arrived: only bytes that differ count
+	if n, err := io.ReadFull(c, key); err != nil || string(key) != s.key {
+		if string(key[:n]) != s.key[:n] {
+			s.mu.Lock()
+			s.badKey++
+			s.mu.Unlock()
+		}
 		return
 	}
 	head := make([]byte, 4)
@@ -744,6 +752,12 @@ func (s *sink) serve(id int, c net.Conn) {
 				s.partial++
 				s.mu.Unlock()
 			}
+			return
+		}
+		if binary.LittleEndian.Uint32(head) > 1<<20 { // no accepted packet is that long: the stream is garbage
+			s.mu.Lock()
+			s.badKey++
+			s.mu.Unlock()
 			return
 		}
 		body := make([]byte, binary.LittleEndian.Uint32(head))
@@ -923,8 +937,11 @@ func runL2(seed uint64, idx int, o *out, tier string) {
 				last[f.conn] = int64(q)
 				data[q] = f
 			}
-			if s.badKey > 0 {
-				o.Viol("e2e-bytes", "sink %d: %d connections did not start with the reconnect key", si, s.badKey)
+			s.mu.Lock()
+			badKey := s.badKey
+			s.mu.Unlock()
+			if badKey > 0 {
+				o.Viol("e2e-bytes", "sink %d: %d connections carried bytes that are not the reconnect key followed by length-framed packets", si, badKey)
 				viol = true
 			}
 		}
@@ -1090,7 +1107,7 @@ func main() {
 					continue
 				}
 				var o *out
-				for attempt := 0; attempt < 5; attempt++ {
+				for attempt := 0; attempt < 8; attempt++ {
 					o = newOut()
 					tainted := false
 					func() {
@@ -1104,8 +1121,10 @@ func main() {
 					if !tainted {
 						break
 					}
+					// the machine stalled between two ops of this attempt (> taintAfter with a sender parked): the schedule
+					// is not the scripted one. Never reported as a violation; after 8 attempts the case is skipped.
 					o = newOut()
-					o.Viol("l1-timing", "case could not be run 5 times without a >%v stall between two ops", taintAfter)
+					o.Stat("l1.skipped-after-8-stalled-attempts", 1)
 				}
 				outs[i] = o
 			}
